@@ -2,7 +2,7 @@
 from ..core import Harness
 from .. import arith, families
 
-PRELUDE = """use ldpc_toolbox::decoder::factory::{DecoderFactory, DecoderImplementation};
+PRELUDE = """use ldpc_toolbox::decoder::arithmetic::*;
 use ldpc_toolbox::decoder::{DecoderOutput, LdpcDecoder};
 use ldpc_toolbox::sparse::SparseMatrix;
 """
@@ -14,6 +14,11 @@ def family(tier, seed):
     return families.HQ + [families.JOHNSON] + families.random_family(seed, 3)
 
 
+# representative pairs (one per arithmetic family and schedule) for the extra quick-tier cases
+REP = ("Phif64", "Tanhf32", "Minstarapproxf64", "Aminstarf32", "Minstarapproxi8JonesPartialHardLimitDeg1Clip", "Aminstari8",
+       "HLPhif32", "HLTanhf64", "HLMinstarapproxf32", "HLAminstarf64", "HLMinstarapproxi8PartialHardLimit", "HLAminstari8")
+
+
 def build(tier, seed):
     fam = family(tier, seed)
     limits = [0, 1] if tier == "quick" else [0, 1, 2, 3]
@@ -21,19 +26,28 @@ def build(tier, seed):
     for impl, ty, sched in arith.implementations():
         kind = arith.type_info(ty)["kind"]
         mac = "c01_i8" if kind == "i8" else "c01_f"
-        for name, n, rows in fam:
+        for fi, (name, n, rows) in enumerate(fam):
             r = len(rows)
             maxw = max(max(len(x) for x in rows), n, r)
             for lim in limits:
+                if tier == "quick":
+                    # measured (14 parallel): limit 0 ~ 40-90 s, limit 1 ~ 80-300 s per harness.  Quick: every pair with
+                    # limit 1 on the chain matrix; limit 0 and the second matrix for the representative pairs only.
+                    if (lim == 0 or fi > 0) and impl not in REP:
+                        continue
+                    if fi > 0 and lim == 0:
+                        continue
+                    if fi > 0 and "Aminstar" in ty and sched == "flooding":
+                        continue  # > 400 s: thorough tier
                 hn = "c01_%s_%s_l%d" % (impl, name, lim)
                 unw = max(maxw, lim) + 3
-                w = 1.0 if lim == 0 else (4.0 + sum(len(x) for x in rows)) * lim * (2.0 if "Aminstar" in ty else 1.0)
-                items.append((Harness(hn, {"implementation": impl, "matrix": name, "iteration_limit": lim,
+                w = 2.0 if lim == 0 else (4.0 + sum(len(x) for x in rows)) * lim * (2.0 if "Aminstar" in ty else 1.0)
+                items.append((Harness(hn, {"implementation": impl, "decoder": "%s::Decoder<%s>" % (sched, ty), "matrix": name, "iteration_limit": lim,
                                             "input": "%d LLRs, every f64 with |x| <= 1e30 (incl. +-0, subnormals)" % n},
                                       w, stubs="TABLE" if kind == "i8" else "CONTRACT"),
-                              "crate::%s!(%s, %s, h_%s, syn_%s, %d, %d, %s, %d);" % (mac, hn, impl, name, name, n, lim, "true" if lim >= 1 else "false", unw)))
+                              "crate::%s!(%s, %s, %s, h_%s, syn_%s, %d, %d, %s, %d);" % (mac, hn, sched, ty, name, name, n, lim, "true" if lim >= 1 else "false", unw)))
     meta = {
-        "functions": ["DecoderImplementation::build_decoder (all 36 rows)", "flooding::Decoder::{new, decode, initialize, process_check_nodes, process_variable_nodes}",
+        "functions": ["the 36 (schedule, arithmetic) pairs behind the 36 implementation names, built as the generic decoder directly (the name -> pair wiring of build_decoder is C18's subject; going through the factory makes every goto binary 20x larger)", "flooding::Decoder::{new, decode, initialize, process_check_nodes, process_variable_nodes}",
                       "horizontal_layered::Decoder::{new, decode, initialize, process_check_nodes}", "decoder::{check_llrs, hard_decisions, Messages::send, Messages::from_iter, SentMessages::from_iter}",
                       "the DecoderArithmetic impl of the named type", "SparseMatrix::{new, insert_row, iter_row, iter_col, num_rows, num_cols}"],
         "bounds": {"matrices": families.describe(fam), "iteration_limits": limits, "unwind": "max(n, rows, weights, limit)+3; table loop 26 via --unwindset",
@@ -44,4 +58,4 @@ def build(tier, seed):
         "assumptions": ["row weight >= 2 (statement)", "CONTRACT facts hold for libm (validated natively on a grid)"],
     }
     return {"prelude": PRELUDE + families.rust_defs(fam), "items": items, "meta": meta, "nshards": 14,
-            "timeout": 400 if tier == "quick" else 1800, "rss_cap_gb": 8 if tier == "quick" else 12}
+            "timeout": 600 if tier == "quick" else 3600, "rss_cap_gb": 8 if tier == "quick" else 12}
